@@ -229,6 +229,43 @@ theorem placeholders_distinct {lookup : List (Name × Name)} {placeholder : Nat 
 
 example : Function.Injective (fun k => stripSuffix (demoPlaceholder k)) := demoPlaceholder_injective
 
+/-- "Ensembl identifiers are kept (minus version suffix)": what is kept is still
+an Ensembl identifier, and it has no version suffix any more. -/
+theorem strip_ensembl {s : Name} (h : isEnsembl s = true) :
+    isEnsembl (stripSuffix s) = true ∧ '.' ∉ stripSuffix s :=
+  isEnsembl_stripSuffix h
+
+example : isEnsembl ['E','N','S','M','U','S','G','0','1','.','1','2'] = true ∧
+    stripSuffix ['E','N','S','M','U','S','G','0','1','.','1','2'] = ['E','N','S','M','U','S','G','0','1'] ∧
+    isEnsembl ['E','N','S','0','1'] = false ∧ isEnsembl ['E','N','S','G','0','1','.'] = false := by
+  decide +kernel
+
+/-- "Ensembl identifiers are kept (minus version suffix)", in the mapper's output:
+at the position of an Ensembl identifier stands that identifier without its
+version suffix, whatever the lookup table says. -/
+theorem ensembl_kept {lookup : List (Name × Name)} {placeholder : Nat → Name} {start : Nat}
+    {genes : List Name} {o : MapOut} (h : mapGenes lookup placeholder start genes = .ok o)
+    (i : Nat) (hi : i < genes.length) (he : isEnsembl genes[i] = true) :
+    o.mapped[i]? = some (stripSuffix genes[i]) ∧ isEnsembl (stripSuffix genes[i]) = true := by
+  rw [genes_pointwise h i hi, if_pos he]
+  exact ⟨rfl, (isEnsembl_stripSuffix he).1⟩
+
+example : isEnsembl demoInput.genes[0] = true := by decide +kernel
+
+/-- "known gene symbols are replaced by their Ensembl identifier": at the
+position of a name that is not an Ensembl identifier but is in the lookup table
+stands the table's entry (minus version suffix). -/
+theorem known_symbol_replaced {lookup : List (Name × Name)} {placeholder : Nat → Name} {start : Nat}
+    {genes : List Name} {o : MapOut} (h : mapGenes lookup placeholder start genes = .ok o)
+    (i : Nat) (hi : i < genes.length) (he : isEnsembl genes[i] = false) {e : Name}
+    (hl : lookup.lookup genes[i] = some e) :
+    o.mapped[i]? = some (stripSuffix e) := by
+  rw [genes_pointwise h i hi, he, hl]
+  rfl
+
+example : isEnsembl demoInput.genes[1] = false ∧
+    demoLookup.lookup demoInput.genes[1] = some ['E','N','S','G','0','7'] := by decide +kernel
+
 /-! ### what `_validate_h5ad` writes -/
 
 /-- "the same genes in the same order" / identifiers: the `var` index of the
@@ -500,6 +537,18 @@ theorem hasDup_iff (l : List Name) : hasDup l = true ↔ ¬ l.Nodup :=
 
 
 example : hasDup [['a'], ['b'], ['a']] = true ∧ hasDup [['a'], ['b'], ['a','b']] = false := by decide
+
+/-- "duplicate cell identifiers, duplicate or empty gene names ... are rejected",
+in terms of the census function of the model: a repeated cell identifier stops
+the run first, then a repeated or empty gene name. -/
+theorem rejects {placeholder : Nat → Name} {inp : Input} :
+    (hasDup inp.cellIds = true → validate placeholder inp = .error .dupCellIds) ∧
+    (hasDup inp.cellIds = false → (hasDup inp.genes = true ∨ [] ∈ inp.genes) →
+      validate placeholder inp = .error .badGeneNames) :=
+  ⟨validate_dupCells, validate_badGenes⟩
+
+example : hasDup [['c'], ['d'], ['c']] = true ∧ hasDup demoInput.cellIds = false ∧
+    ([] : Name) ∈ [['g'], []] := by decide
 
 /-- "duplicate cell identifiers ... are rejected" -/
 theorem rejects_dup_cells {placeholder : Nat → Name} {inp : Input} (h : ¬ inp.cellIds.Nodup) :
